@@ -280,7 +280,7 @@ func (x *intTranslator) bv0(t *Term) *itrans {
 			lo, hi = new(big.Int).Mul(a.iv.lo, b.iv.lo), new(big.Int).Mul(a.iv.hi, b.iv.hi)
 			tz = minInt(a.tz+b.tz, w)
 			if !t.a.IsConst() && !t.b.IsConst() {
-				// symbolic x symbolic: nonlinear; still expressible, solver may struggle
+				x.fail("nonlinear multiplication")
 			}
 		}
 		re, iv := x.reduce(e, lo, hi, w)
@@ -298,6 +298,10 @@ func (x *intTranslator) bv0(t *Term) *itrans {
 		a := x.bv(t.a)
 		return &itrans{e: x.mk("-", x.konst(top), a.e), iv: itv{new(big.Int).Sub(top, a.iv.hi), new(big.Int).Sub(top, a.iv.lo)}}
 	case OpUDiv, OpURem:
+		if !t.b.IsConst() {
+			x.fail("division by a non-constant")
+			return &itrans{e: x.konst(big0), iv: full}
+		}
 		a, b := x.bv(t.a), x.bv(t.b)
 		if b.iv.lo.Sign() == 0 {
 			if b.iv.hi.Sign() == 0 {
